@@ -49,6 +49,20 @@ func main() {
 			os.Exit(rt.ExitInconclusive)
 		}
 		fmt.Printf("replay property=%s key=%s op=%s\nrecorded: observed=%s expected=%s reason=%s\n", v.Property, v.Key, v.Op, v.Observed, v.Expected, v.Reason)
+		if v.Op == "library-panic" {
+			// the recorded event is a panic of the code under test somewhere in the property's
+			// deterministic workload: re-run that workload at the recorded tier and seed
+			tmp, _ := os.MkdirTemp("", "verif-replay-")
+			defer os.RemoveAll(tmp)
+			os.Setenv("VERIF_TIER", v.Tier)
+			os.Setenv("VERIF_SEED", fmt.Sprint(v.Seed))
+			os.Setenv("VERIF_OUT", tmp)
+			debug.SetGCPercent(1600)
+			c := rt.New(v.Property)
+			runGuarded(c, props[v.Property])
+			fmt.Println("now:", c.Report())
+			return
+		}
 		f, ok := replayers[v.Property+"/"+v.Op]
 		if !ok {
 			fmt.Println("no automatic replayer for this op; the args in the file reproduce the call by hand")
@@ -70,13 +84,15 @@ func main() {
 	// collector run continuously and serialises the workers
 	debug.SetGCPercent(1600)
 	c := rt.New(os.Args[1])
-	func() {
-		defer func() {
-			if r := recover(); r != nil {
-				c.Inconclusive(fmt.Sprintf("harness panic: %v", r))
-			}
-		}()
-		f(c)
-	}()
+	runGuarded(c, f)
 	c.Finish()
+}
+
+func runGuarded(c *rt.Ctx, f func(c *rt.Ctx)) {
+	defer func() {
+		if r := recover(); r != nil {
+			c.Panicked("main goroutine", r, debug.Stack())
+		}
+	}()
+	f(c)
 }
